@@ -27,7 +27,7 @@ Record cpart := mk_cpart {
   c_kss : list (Z * (Z * Z));               (* start, (fifths, key_mode_to_int mode) *)
   c_nstaves : Z;                            (* number_of_staves *)
   c_clefs : list (Z * (Z * Z * Z * Z));     (* start, (staff, clef_sign_to_int sign, line, octave_change or 0) *)
-  c_meas : list (Z * (Z * Z * Z))           (* start, (start, end, number) *)
+  c_meas : list (Z * (Z * Z * option Z))    (* start, (start, end, number); None = the measure has no usable number *)
 }.
 
 Definition c_first (cp : cpart) : Z := p_first (c_part cp).
@@ -71,33 +71,49 @@ Definition full_bar (cp : cpart) (s0 : Z) : option Q :=
 
 Definition Qltb (a b : Q) : bool := negb (Qle_bool b a).
 
-Definition meas_tbl (cp : cpart) : list (Z * (Z * Z * Z)) :=
-  match c_meas cp with
+(* measure_number_map: an un-numbered measure (number None) takes the number AS WRITTEN of the measure before it in
+   the list -- for the first measure that is the last one (Python index -1); two un-numbered measures in a row
+   leave the second without number (the implementation raises) *)
+Fixpoint fill_nums (prev : option Z) (l : list (option Z)) : list (option Z) :=
+  match l with
   | [] => []
-  | (s0, (_, e0, n0)) :: r =>
+  | x :: r => (match x with Some n => Some n | None => prev end) :: fill_nums x r
+  end.
+Definition eff_nums (l : list (option Z)) : list (option Z) := fill_nums (last l None) l.
+
+(* length of the bar the first measure is taken to end, when that measure is shorter than
+   beats * divisions-per-beat (np.round = round half to even); None = no correction *)
+Definition pickup_len (cp : cpart) : option Z :=
+  match c_meas cp with
+  | [] => None
+  | (s0, (_, e0, _)) :: _ =>
       match full_bar cp s0 with
-      | Some fb =>
-          if Qltb (inject_Z (e0 - s0)) fb
-          then let s' := e0 - round_half_even fb in (s', (s', e0, n0)) :: r
-          else c_meas cp
-      | None => c_meas cp
+      | Some fb => if Qltb (inject_Z (e0 - s0)) fb then Some (round_half_even fb) else None
+      | None => None
       end
   end.
 
-Definition meas_row_of (mt : list (Z * (Z * Z * Z))) (t : Z) : option (Z * Z * Z) :=
+Definition meas_tbl (cp : cpart) : list (Z * (Z * Z * option Z)) :=
+  match c_meas cp, pickup_len cp with
+  | (s0, (_, e0, n0)) :: r, Some len => (e0 - len, (e0 - len, e0, n0)) :: r
+  | _, _ => c_meas cp
+  end.
+
+Definition meas_row_of (mt : list (Z * (Z * Z * option Z))) (t : Z) : option (Z * Z * option Z) :=
   match mt with
   | [] => None
   | (_, v0) :: _ => Some (prev_lookup mt t v0)
   end.
-Definition meas_row (cp : cpart) (t : Z) : option (Z * Z * Z) := meas_row_of (meas_tbl cp) t.
+Definition meas_row (cp : cpart) (t : Z) : option (Z * Z * option Z) := meas_row_of (meas_tbl cp) t.
 
 Definition measure_map (cp : cpart) (t : Z) : option (Z * Z) :=
   option_map (fun r => let '(s, e, _) := r in (s, e)) (meas_row cp t).
+(* None: no measure at all, or the measure in force has no number *)
 Definition measure_number_map (cp : cpart) (t : Z) : option Z :=
-  option_map (fun r => let '(_, _, n) := r in n) (meas_row cp t).
+  match meas_row cp t with Some (_, _, n) => n | None => None end.
 
 (* barlines = starts of all measures + end of the last one; bar i = [b_i, b_{i+1}) *)
-Fixpoint last_end (tbl : list (Z * (Z * Z * Z))) (d : Z) : Z :=
+Fixpoint last_end (tbl : list (Z * (Z * Z * option Z))) (d : Z) : Z :=
   match tbl with
   | [] => d
   | (_, (_, e, _)) :: r => last_end r e
@@ -112,12 +128,35 @@ Fixpoint bar_tbl (bl : list Z) : list (Z * (Z * Z)) :=
   end.
 
 (* metrical_position_map: (t - start of the bar, length of the bar); (0, 0) with fewer than two measures *)
-Definition metpos_of (mt : list (Z * (Z * Z * Z))) (bt : list (Z * (Z * Z))) (t : Z) : Z * Z :=
+Definition metpos_of (mt : list (Z * (Z * Z * option Z))) (bt : list (Z * (Z * Z))) (t : Z) : Z * Z :=
   match mt, bt with
   | _ :: _ :: _, (_, v0) :: _ => let '(b, d) := prev_lookup bt t v0 in (t - b, d)
   | _, _ => (0, 0)
   end.
 Definition metpos (cp : cpart) (t : Z) : Z * Z := metpos_of (meas_tbl cp) (bar_tbl (barlines cp)) t.
+
+(* ---- the optional note-array columns derived from the maps (utils/music.py: note_array_from_note_list,
+   rest_array_from_rest_list): (ts_beats, ts_beat_type, ts_mus_beats), (ks_fifths, ks_mode),
+   (is_downbeat, rel_onset_div, tot_measure_div) at the onset t *)
+Definition na_ts (cp : cpart) (t : Z) : Z * Z * Z := ts_map cp t.
+Definition na_ks (cp : cpart) (t : Z) : Z * Z := ks_map cp t.
+Definition na_metrical (cp : cpart) (t : Z) : Z * Z * Z :=
+  let '(pos, len) := metpos cp t in ((if pos =? 0 then 1 else 0), pos, len).
+
+(* ---- well-formed measure lists (hypotheses of the theorems; the generator builds such lists) *)
+(* keyed by their start, non-empty, none starting before the previous one ends *)
+Fixpoint meas_wf (l : list (Z * (Z * Z * option Z))) : Prop :=
+  match l with
+  | [] => True
+  | (k, (s, e, _)) :: r =>
+      k = s /\ s < e /\ match r with [] => True | (k', _) :: _ => e <= k' end /\ meas_wf r
+  end.
+(* each measure starts where the previous one ends *)
+Fixpoint meas_contig (l : list (Z * (Z * Z * option Z))) : Prop :=
+  match l with
+  | [] => True
+  | (_, (_, e, _)) :: r => match r with [] => True | (k', _) :: _ => e = k' end /\ meas_contig r
+  end.
 
 (* ---- mode and clef-sign codes (key_mode_to_int, clef_sign_to_int): spelling numbers used by the harness
    modes: 0 "major", 1 "minor", 2 None, 3 "none", 4 1, 5 -1 *)
@@ -133,16 +172,21 @@ Definition z2_eqb (a b : Z * Z) : bool :=
 Definition z4_eqb (a b : Z * Z * Z * Z) : bool :=
   let '(a1, a2, a3, a4) := a in let '(b1, b2, b3, b4) := b in (a1 =? b1) && (a2 =? b2) && (a3 =? b3) && (a4 =? b4).
 
+Definition zo_eqb (a b : option Z) : bool := zopt_eqb a b.
+
 (* a case: first, last, quarter durations, time signatures (t, beats, type), beat operations, key signatures
-   (t, fifths, mode spelling), number of staves, clefs (t, staff, sign, line, octave change), measures (start, end, number),
-   observations per position: (t, time sig, key sig, clef rows, inside a measure -> (start, end, number, position, bar length)) *)
+   (t, fifths, mode spelling), number of staves, clefs (t, staff, sign, line, octave change),
+   measures (start, end, number as written or None),
+   observations per position: (t, time sig, key sig, clef rows, inside a measure -> (start, end, number, position, bar length)),
+   note/rest-array rows: (onset, ts columns, ks columns, onset inside a measure -> metrical columns) *)
 Definition c10_case : Type :=
   (Z * Z * list (Z * Z) * list (Z * Z * Z) * list beat_op * list (Z * Z * Z) * Z *
-   list (Z * Z * Z * Z * Z) * list (Z * Z * Z) *
-   list (Z * (Z * Z * Z) * (Z * Z) * list (Z * Z * Z * Z) * option (Z * Z * Z * Z * Z)))%type.
+   list (Z * Z * Z * Z * Z) * list (Z * Z * option Z) *
+   list (Z * (Z * Z * Z) * (Z * Z) * list (Z * Z * Z * Z) * option (Z * Z * Z * Z * Z)) *
+   list (Z * (Z * Z * Z) * (Z * Z) * option (Z * Z * Z)))%type.
 
 Definition build10 (c : c10_case) : cpart :=
-  let '(first, last, qs, tss, ops, kss, nst, clefs, meas, _) := c in
+  let '(first, last, qs, tss, ops, kss, nst, clefs, meas, _, _) := c in
   let '(flag, tss') := beat_run tss ops in
   let m1 := match meas with
             | (s0, e0, _) :: _ => if s0 =? first then Some (s0, e0) else None
@@ -151,11 +195,12 @@ Definition build10 (c : c10_case) : cpart :=
   mk_cpart (mk_part first last qs tss' m1) flag
     (map (fun x => let '(t, f, sp) := x in (t, (f, mode_code sp))) kss) nst
     (map (fun x => let '(t, st, sg, ln, oc) := x in (t, (st, sg, ln, oc))) clefs)
-    (map (fun x => let '(s, e, n) := x in (s, (s, e, n))) meas).
+    (map (fun xn => let '(s, e, _) := fst xn in (s, (s, e, snd xn)))
+         (combine meas (eff_nums (map (fun x => let '(_, _, n) := x in n) meas)))).
 
 Definition check10 (c : c10_case) : bool :=
   let cp := build10 c in
-  let '(_, _, _, _, _, _, _, _, _, obs) := c in
+  let '(_, _, _, _, _, _, _, _, _, obs, rows) := c in
   let mt := meas_tbl cp in
   let bt := bar_tbl (map fst mt ++ [last_end mt 0]) in
   forallb (fun o =>
@@ -166,6 +211,14 @@ Definition check10 (c : c10_case) : bool :=
     | Some (s, e, n, pos, len) =>
         match meas_row_of mt t with
         | None => false
-        | Some r => z3_eqb (s, e, n) r && z2_eqb (pos, len) (metpos_of mt bt t)
+        | Some (s', e', n') => (s =? s') && (e =? e') && zo_eqb (Some n) n' && z2_eqb (pos, len) (metpos_of mt bt t)
         end
-    end) obs.
+    end) obs &&
+  forallb (fun o =>
+    let '(t, ts, ks, mp) := o in
+    z3_eqb ts (na_ts cp t) && z2_eqb ks (na_ks cp t) &&
+    match mp with
+    | None => true
+    | Some m =>
+        let '(pos, len) := metpos_of mt bt t in z3_eqb m ((if pos =? 0 then 1 else 0), pos, len)
+    end) rows.
